@@ -94,6 +94,139 @@ Definition LINE_LRU_CAP : nat := 8.        (* LineReader::FIND_LINE_LRU_CACHE_SZ
 Definition SYSLINE_LRU_CAP : nat := 4.     (* SyslineReader::FIND_SYSLINE_LRU_CACHE_SZ *)
 Definition PARSE_LRU_CAP : nat := 8.       (* SyslineReader::PARSE_DATETIME_IN_LINE_LRU_CACHE_SZ *)
 
+(* ---------------------------------------------------------------- BlockReader: which blocks can be read
+   (src/readers/blockreader.rs: read_block, read_block_File, read_block_File{Gz,Bz2,Lz4}, drop_block,
+   store_block_in_storage, store_block_in_LRU_cache, disable_drop_data).
+
+   A PLAIN file re-reads any block at any time.  A STREAMED file (gz, bz2, lz4: the three functions
+   have the same control flow) can only decode the NEXT block of the stream: read_block_FileXx starts
+   at bo_at = max(blocks_read) and decodes forward up to the requested block; after decoding block
+   bo_at it drops block bo_at_old, the block it visited before (READ_BLOCK_LOOKBACK_DROP) - so with
+   drops enabled only the newest block stays in `blocks`.  A request for an earlier block that was
+   dropped: the main read_block finds it in blocks_read but not in blocks, counts a "reread error",
+   removes it from blocks_read and calls read_block_FileXx, whose loop does not run (bo_at > bo):
+   Done.  LineReader::find_line returns Done when read_block returns Done.
+   disable_drop_data makes drop_block a no-op: then every block ever read stays.
+
+   State: kind, the drop_data flag, the keys of `blocks`, `blocks_read`, the block LRU cache (4, most
+   recent first), the number of blocks decoded from the stream so far, the counters of summary().
+   `refd bo` = some live Line holds a LinePart of block bo (Arc::try_unwrap in drop_block fails). *)
+
+Definition BLOCK_LRU_CAP : nat := 4.       (* BlockReader::READ_BLOCK_LRU_CACHE_SZ *)
+
+Definition nmem (x : N) (l : list N) : bool := existsb (N.eqb x) l.
+Definition nadd (x : N) (l : list N) : list N := if nmem x l then l else x :: l.
+Definition nrem (x : N) (l : list N) : list N := filter (fun y => negb (y =? x)) l.
+Definition nmax (l : list N) : N := fold_left N.max l 0.
+
+Record bcnt : Type := mkBC {
+  bc_lru_hit : N; bc_lru_miss : N; bc_lru_put : N;       (* read_block_lru_cache_* *)
+  bc_hit : N; bc_miss : N; bc_put : N;                    (* read_blocks_hit / _miss / _put *)
+  bc_reread : N;                                          (* read_blocks_reread_error *)
+  bc_highest : N;                                         (* blocks_highest *)
+  bc_drop_ok : N; bc_drop_err : N }.                      (* blocks_dropped_ok / _err *)
+Definition bcnt0 : bcnt := mkBC 0 0 0 0 0 0 0 0 0 0.
+Definition bc_upd (c d : bcnt) : bcnt :=
+  mkBC (bc_lru_hit c + bc_lru_hit d) (bc_lru_miss c + bc_lru_miss d) (bc_lru_put c + bc_lru_put d)
+       (bc_hit c + bc_hit d) (bc_miss c + bc_miss d) (bc_put c + bc_put d) (bc_reread c + bc_reread d)
+       (N.max (bc_highest c) (bc_highest d)) (bc_drop_ok c + bc_drop_ok d) (bc_drop_err c + bc_drop_err d).
+Definition e_lru_hit := mkBC 1 0 0 0 0 0 0 0 0 0.
+Definition e_lru_miss := mkBC 0 1 0 0 0 0 0 0 0 0.
+Definition e_lru_put := mkBC 0 0 1 0 0 0 0 0 0 0.
+Definition e_hit := mkBC 0 0 0 1 0 0 0 0 0 0.
+Definition e_miss := mkBC 0 0 0 0 1 0 0 0 0 0.
+Definition e_reread := mkBC 0 0 0 0 0 0 1 0 0 0.
+Definition e_drop_ok := mkBC 0 0 0 0 0 0 0 0 1 0.
+Definition e_drop_err := mkBC 0 0 0 0 0 0 0 0 0 1.
+Definition e_stored (n : N) := mkBC 0 0 0 0 0 1 0 n 0 0.         (* read_blocks_put, blocks_highest *)
+
+Record bstate : Type := mkB {
+  b_stream : bool;         (* is_streamed_file: gz / bz2 / lz4 *)
+  b_drop : bool;           (* drop_data *)
+  b_blocks : list N;       (* keys of `blocks` *)
+  b_read : list N;         (* blocks_read *)
+  b_lru : list N;          (* read_block_lru_cache, most recently used first *)
+  b_dec : N;               (* blocks decoded from the stream so far *)
+  b_cnt : bcnt }.
+
+Definition b_init (stream : bool) : bstate := mkB stream true [] [] [] 0 bcnt0.
+
+Definition b_cnt_up (d : bcnt) (st : bstate) : bstate :=
+  mkB (b_stream st) (b_drop st) (b_blocks st) (b_read st) (b_lru st) (b_dec st) (bc_upd (b_cnt st) d).
+
+(* store_block_in_LRU_cache *)
+Definition b_lru_put (bo : N) (st : bstate) : bstate :=
+  mkB (b_stream st) (b_drop st) (b_blocks st) (b_read st)
+      (firstn BLOCK_LRU_CAP (bo :: nrem bo (b_lru st))) (b_dec st) (bc_upd (b_cnt st) e_lru_put).
+
+(* store_block_in_storage, then store_block_in_LRU_cache *)
+Definition b_store (bo : N) (st : bstate) : bstate :=
+  let blocks := nadd bo (b_blocks st) in
+  b_lru_put bo (mkB (b_stream st) (b_drop st) blocks (nadd bo (b_read st)) (b_lru st) (b_dec st)
+                    (bc_upd (b_cnt st) (e_stored (lenN blocks)))).
+
+(* BlockReader::disable_drop_data *)
+Definition b_disable_drop (st : bstate) : bstate :=
+  mkB (b_stream st) false (b_blocks st) (b_read st) (b_lru st) (b_dec st) (b_cnt st).
+
+(* BlockReader::drop_block *)
+Definition b_drop_block (refd : N -> bool) (st : bstate) (bo : N) : bstate :=
+  if negb (b_drop st) then st
+  else
+    let had := nmem bo (b_blocks st) || nmem bo (b_lru st) in
+    mkB (b_stream st) (b_drop st) (nrem bo (b_blocks st)) (b_read st) (nrem bo (b_lru st)) (b_dec st)
+        (if had then bc_upd (b_cnt st) (if refd bo then e_drop_err else e_drop_ok) else b_cnt st).
+
+Inductive bres : Type :=
+| BFound      (* the block, with the right bytes *)
+| BDone       (* past the end, or the block is gone *)
+| BPanic      (* blocks.get_mut(..).unwrap() in read_block_FileXx *)
+| BWrong.     (* the decoder is not positioned at the block that is stored (never happens: StreamProofs) *)
+
+(* the while loop of read_block_File{Gz,Bz2,Lz4} *)
+Fixpoint b_stream_loop (fuel : nat) (refd : N -> bool) (st : bstate) (bo bo_at bo_at_old : N) : bstate * bres :=
+  match fuel with
+  | O => (st, BDone)
+  | S k =>
+      if bo_at <=? bo then
+        if nmem bo_at (b_read st) then
+          let st := b_cnt_up e_hit st in
+          if bo_at =? bo then
+            if nmem bo_at (b_blocks st) then (b_lru_put bo_at st, BFound) else (st, BPanic)
+          else b_stream_loop k refd st bo (bo_at + 1) bo_at_old
+        else
+          let st := b_cnt_up e_miss st in
+          if negb (b_dec st =? bo_at) then (st, BWrong)
+          else
+            let st := b_store bo_at (mkB (b_stream st) (b_drop st) (b_blocks st) (b_read st) (b_lru st)
+                                         (b_dec st + 1) (b_cnt st)) in
+            let st := if bo_at_old <? bo_at then b_drop_block refd st bo_at_old else st in
+            if bo_at =? bo then (st, BFound) else b_stream_loop k refd st bo (bo_at + 1) bo_at
+      else (st, BDone)
+  end.
+
+(* BlockReader::read_block.  filesz, last = blockoffset_last *)
+Definition b_read_block (refd : N -> bool) (filesz last : N) (st : bstate) (bo : N) : bstate * bres :=
+  if last <? bo then (st, BDone)
+  else
+    if nmem bo (b_lru st) then
+      (mkB (b_stream st) (b_drop st) (b_blocks st) (b_read st) (bo :: nrem bo (b_lru st)) (b_dec st)
+           (bc_upd (b_cnt st) e_lru_hit), BFound)
+    else
+      let st := b_cnt_up e_lru_miss st in
+      let go (st : bstate) : bstate * bres :=
+        if filesz =? 0 then (st, BDone)
+        else if b_stream st
+             then let m := nmax (b_read st) in b_stream_loop (S (S (N.to_nat (bo - m)))) refd st bo m m
+             else (b_store bo st, BFound) in
+      if nmem bo (b_read st) then
+        let st := b_cnt_up e_hit st in
+        if nmem bo (b_blocks st) then (b_lru_put bo st, BFound)
+        else
+          go (mkB (b_stream st) (b_drop st) (b_blocks st) (nrem bo (b_read st)) (b_lru st) (b_dec st)
+                  (bc_upd (bc_upd (b_cnt st) e_reread) e_miss))
+      else go (b_cnt_up e_miss st).
+
 (* ---------------------------------------------------------------- LineReader state *)
 
 Definition sline := (N * line)%type.                  (* object id, parts *)
@@ -118,9 +251,12 @@ Record lr_state : Type := mkLR {
   l_lru : list (N * lres);
   l_on : bool;
   l_nid : N;
-  l_cnt : lcnt }.
+  l_cnt : lcnt;
+  l_blk : bstate;              (* the BlockReader *)
+  l_ext : list sline }.        (* Line objects held by the caller (a SyslineReader): they keep blocks referenced *)
 
-Definition lr_init : lr_state := mkLR [] [] [] true 0 lcnt0.
+Definition lr_init_k (stream : bool) : lr_state := mkLR [] [] [] true 0 lcnt0 (b_init stream) [].
+Definition lr_init : lr_state := lr_init_k false.
 
 Definition lc_hits_up c := mkLC (lc_processed c) (lc_highest c) (lc_hits c + 1) (lc_miss c) (lc_lru_hit c) (lc_lru_miss c) (lc_lru_put c) (lc_drop_ok c) (lc_drop_err c).
 Definition lc_miss_up c := mkLC (lc_processed c) (lc_highest c) (lc_hits c) (lc_miss c + 1) (lc_lru_hit c) (lc_lru_miss c) (lc_lru_put c) (lc_drop_ok c) (lc_drop_err c).
@@ -132,9 +268,13 @@ Definition lc_drop_err_up c := mkLC (lc_processed c) (lc_highest c) (lc_hits c) 
 Definition lc_inserted (n : N) c := mkLC (lc_processed c + 1) (N.max (lc_highest c) n) (lc_hits c) (lc_miss c) (lc_lru_hit c) (lc_lru_miss c) (lc_lru_put c) (lc_drop_ok c) (lc_drop_err c).
 
 Definition lr_cnt (g : lcnt -> lcnt) (st : lr_state) : lr_state :=
-  mkLR (l_lines st) (l_foend st) (l_lru st) (l_on st) (l_nid st) (g (l_cnt st)).
+  mkLR (l_lines st) (l_foend st) (l_lru st) (l_on st) (l_nid st) (g (l_cnt st)) (l_blk st) (l_ext st).
 Definition lr_set_lru (c : list (N * lres)) (st : lr_state) : lr_state :=
-  mkLR (l_lines st) (l_foend st) c (l_on st) (l_nid st) (l_cnt st).
+  mkLR (l_lines st) (l_foend st) c (l_on st) (l_nid st) (l_cnt st) (l_blk st) (l_ext st).
+Definition lr_set_blk (b : bstate) (st : lr_state) : lr_state :=
+  mkLR (l_lines st) (l_foend st) (l_lru st) (l_on st) (l_nid st) (l_cnt st) b (l_ext st).
+Definition lr_set_ext (e : list sline) (st : lr_state) : lr_state :=
+  mkLR (l_lines st) (l_foend st) (l_lru st) (l_on st) (l_nid st) (l_cnt st) (l_blk st) e.
 
 (* which path answered *)
 Inductive lpath : Type :=
@@ -145,13 +285,14 @@ Inductive lpath : Type :=
 | PA0 | PA1a | PA1b     (* searched newline B, newline A known: offset 0 / line at fo-1 / get_linep(fo-1) *)
 | PSearch         (* full search for newline A *)
 | PInBlockDone    (* find_line_in_block: the line is not inside the block *)
+| PGone           (* read_block returned Done: a block the search needs is gone (streamed file) *)
 | PFail.          (* Panic / OutOfFuel of the pure search *)
 
 (* LRU_cache_enable / LRU_cache_disable *)
 Definition lr_lru_enable (st : lr_state) : lr_state :=
-  if l_on st then st else mkLR (l_lines st) (l_foend st) [] true (l_nid st) (l_cnt st).
+  if l_on st then st else mkLR (l_lines st) (l_foend st) [] true (l_nid st) (l_cnt st) (l_blk st) (l_ext st).
 Definition lr_lru_disable (st : lr_state) : lr_state :=
-  mkLR (l_lines st) (l_foend st) [] false (l_nid st) (l_cnt st).
+  mkLR (l_lines st) (l_foend st) [] false (l_nid st) (l_cnt st) (l_blk st) (l_ext st).
 
 (* check_store_LRU *)
 Definition lr_check_lru (st : lr_state) (fo : N) : lr_state * option lres :=
@@ -180,13 +321,56 @@ Definition lr_insert_line (bs : N) (st : lr_state) (ps : line) : option (lr_stat
       let s : sline := (l_nid st, ps) in
       let lines := ainsert b s (l_lines st) in
       Some (mkLR lines (ainsert e b (l_foend st)) (l_lru st) (l_on st) (l_nid st + 1)
-                 (lc_inserted (lenN lines) (l_cnt st)), s)
+                 (lc_inserted (lenN lines) (l_cnt st)) (l_blk st) (l_ext st), s)
   | _, _ => None
   end.
 
 (* a Line object that is NOT stored (find_line_in_block: full search result, partial line) *)
 Definition lr_fresh_line (st : lr_state) (ps : line) : lr_state * sline :=
-  (mkLR (l_lines st) (l_foend st) (l_lru st) (l_on st) (l_nid st + 1) (l_cnt st), (l_nid st, ps)).
+  (mkLR (l_lines st) (l_foend st) (l_lru st) (l_on st) (l_nid st + 1) (l_cnt st) (l_blk st) (l_ext st), (l_nid st, ps)).
+
+(* ---------------------------------------------------------------- read_block through the LineReader *)
+
+Definition line_in_block (bo : N) (s : sline) : bool := existsb (fun p => part_bo p =? bo) (sl_parts s).
+Definition lres_lines (e : N * lres) : list sline := match snd e with LF _ s => [s] | LD => [] end.
+(* the live Line objects: `lines`, the LRU cache, and those the caller holds *)
+Definition lr_live (st : lr_state) : list sline :=
+  map snd (l_lines st) ++ flat_map lres_lines (l_lru st) ++ l_ext st.
+Definition lr_refd (st : lr_state) (inprog : N -> bool) (bo : N) : bool :=
+  inprog bo || existsb (line_in_block bo) (lr_live st).
+
+Definition lr_read (bs : N) (f : file) (st : lr_state) (inprog : N -> bool) (bo : N) : lr_state * bres :=
+  let '(b, r) := b_read_block (lr_refd st inprog) (lenN f) (blockoffset_last (lenN f) bs) (l_blk st) bo in
+  (lr_set_blk b st, r).
+
+(* B1 / B2: blocks lo, lo+1, ... (n of them); while block b is read the Line under construction holds
+   the parts of lo .. b-1 *)
+Fixpoint lr_reads_fwd (n : nat) (bs : N) (f : file) (st : lr_state) (lo b : N) : lr_state * bres :=
+  match n with
+  | O => (st, BFound)
+  | S k =>
+      match lr_read bs f st (fun x => (lo <=? x) && (x <? b)) b with
+      | (st, BFound) => lr_reads_fwd k bs f st lo (b + 1)
+      | (st, r) => (st, r)
+      end
+  end.
+
+(* A4: blocks hi, hi-1, ... (n of them); the Line under construction holds every later block *)
+Fixpoint lr_reads_bwd (n : nat) (bs : N) (f : file) (st : lr_state) (b : N) : lr_state * bres :=
+  match n with
+  | O => (st, BFound)
+  | S k =>
+      match lr_read bs f st (fun x => b <? x) b with
+      | (st, BFound) => lr_reads_bwd k bs f st (b - 1)
+      | (st, r) => (st, r)
+      end
+  end.
+
+(* the blocks the backward half reads for a line that begins at lb: none when the newline before lb is
+   in the middle block (or lb = 0 there), else bo_mid-1 down to the block of that newline (block 0) *)
+Definition bwd_count (bs lb bo_mid : N) : nat :=
+  let lo := if lb =? 0 then 0 else block_offset_at_file_offset (lb - 1) bs in
+  N.to_nat (bo_mid - lo).
 
 (* ---------------------------------------------------------------- the pure search, in two halves
    (Lines.find_line_fuel = fwd_search ; A0 | back_search: lemma find_line_fuel_split) *)
@@ -287,6 +471,8 @@ Definition c_find_line (bs : N) (f : file) (st : lr_state) (fo : N)
             let bi_mid := block_index_at_file_offset fo bs in
             match fwd_search (S (length f)) bs f fo with
             | Found (fo_nl_b, after, bme) =>
+              match lr_reads_fwd (S (N.to_nat (block_offset_at_file_offset fo_nl_b bs - bo_mid))) bs f st bo_mid bo_mid with
+              | (st, BFound) =>
                 if fo =? 0 then
                   lr_store_found bs st fo (fo_nl_b + 1)
                     ((block_offset_at_file_offset 0 bs, block_index_at_file_offset 0 bs, bme + 1) :: after) PA0
@@ -302,9 +488,14 @@ Definition c_find_line (bs : N) (f : file) (st : lr_state) (fo : N)
                           match back_search (S (length f)) bs f fo after bme with
                           | Found [] => (lr_put st fo LD, Done, PSearch)            (* C *)
                           | Found ps =>                                              (* D *)
-                              match line_fo_end bs ps with
-                              | Some e => lr_store_found bs st fo (e + 1) ps PSearch
-                              | None => (st, Panic, PFail)
+                              match line_fo_begin bs ps, line_fo_end bs ps with
+                              | Some lb, Some e =>
+                                  match lr_reads_bwd (bwd_count bs lb bo_mid) bs f st (bo_mid - 1) with
+                                  | (st, BFound) => lr_store_found bs st fo (e + 1) ps PSearch
+                                  | (st, BDone) => (st, Done, PGone)
+                                  | (st, _) => (st, Panic, PFail)
+                                  end
+                              | _, _ => (st, Panic, PFail)
                               end
                           | Done => (st, Done, PSearch)
                           | OutOfFuel => (st, OutOfFuel, PFail)
@@ -312,6 +503,9 @@ Definition c_find_line (bs : N) (f : file) (st : lr_state) (fo : N)
                           end
                       end
                   end
+              | (st, BDone) => (st, Done, PGone)
+              | (st, _) => (st, Panic, PFail)
+              end
             | Done => (st, Done, PSearch)
             | OutOfFuel => (st, OutOfFuel, PFail)
             | Panic => (st, Panic, PFail)
@@ -324,6 +518,69 @@ Definition c_find_line (bs : N) (f : file) (st : lr_state) (fo : N)
    not found in this block" bi_middle_end keeps its initial value bi_middle (finding F3a); a line
    found by the full backward scan is returned but NOT stored and NOT cached. *)
 
+(* find_line_in_block after check_store_LRU, the end-of-file tests, check_store and the read of the
+   block of the offset: B1, A0 / A1a / A1b, the backward scan inside the block *)
+Definition c_flib_core (bs : N) (f : file) (st : lr_state) (fo : N)
+  : lr_state * (res (N * sline) * option sline) * lpath :=
+  let filesz := lenN f in
+  let bo_last := blockoffset_last filesz bs in
+  let bo_mid := block_offset_at_file_offset fo bs in
+  let bi_mid := block_index_at_file_offset fo bs in
+  let blk := block bs f bo_mid in
+        match nthN blk bi_mid with
+        | None => (st, (Panic, None), PFail)
+        | Some _ =>
+            (* B1: (partial_line, fo_nl_b, bi_middle_end) *)
+            let '(partial, fo_nl_b, bme) :=
+              match find_nl (skipnN bi_mid blk) with
+              | Some d => (false, file_offset_at_block_offset_index bo_mid bs (bi_mid + d), bi_mid + d)
+              | None =>
+                  if bo_mid =? bo_last
+                  then (false, file_offset_at_block_offset_index bo_mid bs (lenN blk - 1), lenN blk - 1)
+                  else (true, fo, bi_mid)
+              end in
+            if fo =? 0 then
+              let ps := [(block_offset_at_file_offset 0 bs, block_index_at_file_offset 0 bs, bme + 1)] in
+              if partial then
+                let '(st, s) := lr_fresh_line st ps in (st, (Done, Some s), PInBlockDone)
+              else
+                let '(st, r, p) := lr_store_found bs st fo (fo_nl_b + 1) ps PA0 in (st, (r, None), p)
+            else
+              let mid := [(bo_mid, bi_mid, bme + 1)] in
+              (* A1a: `!partial_line && self.lines.contains_key(&fo_)` else lines_miss += 1 *)
+              match (if partial then None else alookup (fo - 1) (l_lines st)) with
+              | Some _ =>
+                  let '(st, r, p) := lr_store_found bs (lr_cnt lc_hits_up st) fo (fo_nl_b + 1) mid PA1a in
+                  (st, (r, None), p)
+              | None =>
+                  let st := lr_cnt lc_miss_up st in
+                  match (if partial then None else lr_get_linep st (fo - 1)) with
+                  | Some _ =>
+                      let '(st, r, p) := lr_store_found bs st fo (fo_nl_b + 1) mid PA1b in
+                      (st, (r, None), p)
+                  | None =>
+                      let start := fo - 1 in
+                      let bof := block_offset_at_file_offset start bs in
+                      if negb (bof =? bo_mid) then (st, (Done, None), PInBlockDone)
+                      else
+                        let bi_at0 := block_index_at_file_offset start bs in
+                        (* A2a: Some bi_at (first index of the line inside the block) *)
+                        let bi_at :=
+                          match rfind_nl (firstnN (bi_at0 + 1) blk) with
+                          | Some i => Some (i + 1)
+                          | None => if bof =? 0 then Some 0 else None
+                          end in
+                        match bi_at with
+                        | None => (st, (Done, None), PInBlockDone)
+                        | Some b =>
+                            let '(st, s) := lr_fresh_line st [(bo_mid, b, bme + 1)] in
+                            if partial then (st, (Done, Some s), PInBlockDone)
+                            else (st, (Found (fo_nl_b + 1, s), None), PSearch)
+                        end
+                  end
+              end
+        end.
+
 Definition c_find_line_in_block (bs : N) (f : file) (st : lr_state) (fo : N)
   : lr_state * (res (N * sline) * option sline) * lpath :=
   let filesz := lenN f in
@@ -335,62 +592,10 @@ Definition c_find_line_in_block (bs : N) (f : file) (st : lr_state) (fo : N)
         match lr_check_store bs st fo with
         | (Some (st, r, p), _) => (st, (r, None), p)
         | (None, st) =>
-            let bo_last := blockoffset_last filesz bs in
-            let bo_mid := block_offset_at_file_offset fo bs in
-            let bi_mid := block_index_at_file_offset fo bs in
-            let blk := block bs f bo_mid in
-            match nthN blk bi_mid with
-            | None => (st, (Panic, None), PFail)
-            | Some _ =>
-                (* B1: (partial_line, fo_nl_b, bi_middle_end) *)
-                let '(partial, fo_nl_b, bme) :=
-                  match find_nl (skipnN bi_mid blk) with
-                  | Some d => (false, file_offset_at_block_offset_index bo_mid bs (bi_mid + d), bi_mid + d)
-                  | None =>
-                      if bo_mid =? bo_last
-                      then (false, file_offset_at_block_offset_index bo_mid bs (lenN blk - 1), lenN blk - 1)
-                      else (true, fo, bi_mid)
-                  end in
-                if fo =? 0 then
-                  let ps := [(block_offset_at_file_offset 0 bs, block_index_at_file_offset 0 bs, bme + 1)] in
-                  if partial then
-                    let '(st, s) := lr_fresh_line st ps in (st, (Done, Some s), PInBlockDone)
-                  else
-                    let '(st, r, p) := lr_store_found bs st fo (fo_nl_b + 1) ps PA0 in (st, (r, None), p)
-                else
-                  let mid := [(bo_mid, bi_mid, bme + 1)] in
-                  (* A1a: `!partial_line && self.lines.contains_key(&fo_)` else lines_miss += 1 *)
-                  match (if partial then None else alookup (fo - 1) (l_lines st)) with
-                  | Some _ =>
-                      let '(st, r, p) := lr_store_found bs (lr_cnt lc_hits_up st) fo (fo_nl_b + 1) mid PA1a in
-                      (st, (r, None), p)
-                  | None =>
-                      let st := lr_cnt lc_miss_up st in
-                      match (if partial then None else lr_get_linep st (fo - 1)) with
-                      | Some _ =>
-                          let '(st, r, p) := lr_store_found bs st fo (fo_nl_b + 1) mid PA1b in
-                          (st, (r, None), p)
-                      | None =>
-                          let start := fo - 1 in
-                          let bof := block_offset_at_file_offset start bs in
-                          if negb (bof =? bo_mid) then (st, (Done, None), PInBlockDone)
-                          else
-                            let bi_at0 := block_index_at_file_offset start bs in
-                            (* A2a: Some bi_at (first index of the line inside the block) *)
-                            let bi_at :=
-                              match rfind_nl (firstnN (bi_at0 + 1) blk) with
-                              | Some i => Some (i + 1)
-                              | None => if bof =? 0 then Some 0 else None
-                              end in
-                            match bi_at with
-                            | None => (st, (Done, None), PInBlockDone)
-                            | Some b =>
-                                let '(st, s) := lr_fresh_line st [(bo_mid, b, bme + 1)] in
-                                if partial then (st, (Done, Some s), PInBlockDone)
-                                else (st, (Found (fo_nl_b + 1, s), None), PSearch)
-                            end
-                      end
-                  end
+            match lr_read bs f st (fun _ => false) (block_offset_at_file_offset fo bs) with
+            | (st, BFound) => c_flib_core bs f st fo
+            | (st, BDone) => (st, (Done, None), PGone)
+            | (st, _) => (st, (Panic, None), PFail)
             end
         end
   end.
@@ -421,8 +626,13 @@ Definition lr_drop_line (bs : N) (st : lr_state) (s : sline) (extra : N) : lr_st
       let held := existsb (lres_holds (sl_id s)) lru
                   || existsb (fun e => sl_id (snd e) =? sl_id s) lines
                   || negb (extra =? 0) in
-      mkLR lines (l_foend st) lru (l_on st) (l_nid st)
-           ((if held then lc_drop_err_up else lc_drop_ok_up) (l_cnt st))
+      let st1 := mkLR lines (l_foend st) lru (l_on st) (l_nid st)
+                      ((if held then lc_drop_err_up else lc_drop_ok_up) (l_cnt st)) (l_blk st) (l_ext st) in
+      if held then st1
+      else
+        (* drop the blocks of every LinePart but the last *)
+        fold_left (fun st p => lr_set_blk (b_drop_block (lr_refd st (fun _ => false)) (l_blk st) (part_bo p)) st)
+                  (removelast (sl_parts s)) st1
   end.
 
 (* ---------------------------------------------------------------- SyslineReader state *)
@@ -457,7 +667,8 @@ Record sr_state : Type := mkSR {
   s_nid : N;
   s_cnt : scnt }.
 
-Definition sr_init : sr_state := mkSR lr_init [] [] [] true [] true 0 scnt0.
+Definition sr_init_k (stream : bool) : sr_state := mkSR (lr_init_k stream) [] [] [] true [] true 0 scnt0.
+Definition sr_init : sr_state := sr_init_k false.
 
 Definition sc_upd (c : scnt) (d : scnt) : scnt :=
   mkSC (sc_count c + sc_count d) (N.max (sc_highest c) (sc_highest d)) (sc_hit c + sc_hit d) (sc_miss c + sc_miss d)
@@ -613,11 +824,27 @@ Section Dated.
     | _, _ => None
     end.
 
-  Definition sr_find_line (bs : N) (f : file) (st : sr_state) (fo : N) : sr_state * res (N * sline) :=
-    let '(l, r, _) := c_find_line bs f (s_lr st) fo in (sr_set_lr l st, r).
-  Definition sr_find_line_in_block (bs : N) (f : file) (st : sr_state) (fo : N)
+  (* distinct live Sysline objects: values of `syslines` and of the LRU cache *)
+  Fixpoint dedup_ssl (l : list ssl) (seen : list N) : list ssl :=
+    match l with
+    | [] => []
+    | s :: r => if existsb (N.eqb (ss_id s)) seen then dedup_ssl r seen
+                else s :: dedup_ssl r (ss_id s :: seen)
+    end.
+  Definition sres_ssl (e : N * sres) : list ssl := match snd e with SF _ s => [s] | SD => [] end.
+  Definition live_ssl (st : sr_state) : list ssl :=
+    dedup_ssl (map snd (s_syslines st) ++ flat_map sres_ssl (s_lru st)) [].
+  (* the Line objects the SyslineReader holds: in its live Sysline objects and in the Sysline under
+     construction (acc) *)
+  Definition sr_held (st : sr_state) (acc : list sline) : list sline :=
+    flat_map ss_lines (live_ssl st) ++ acc.
+
+  Definition sr_find_line (bs : N) (f : file) (st : sr_state) (acc : list sline) (fo : N)
+    : sr_state * res (N * sline) :=
+    let '(l, r, _) := c_find_line bs f (lr_set_ext (sr_held st acc) (s_lr st)) fo in (sr_set_lr l st, r).
+  Definition sr_find_line_in_block (bs : N) (f : file) (st : sr_state) (acc : list sline) (fo : N)
     : sr_state * (res (N * sline) * option sline) :=
-    let '(l, r, _) := c_find_line_in_block bs f (s_lr st) fo in (sr_set_lr l st, r).
+    let '(l, r, _) := c_find_line_in_block bs f (lr_set_ext (sr_held st acc) (s_lr st)) fo in (sr_set_lr l st, r).
 
   (* find_sysline_year, loop A.  Result (dt, head line, fo1 = its end + 1); Done has already been
      cached under the requested offset `fo` *)
@@ -626,7 +853,7 @@ Section Dated.
     match fuel with
     | O => (st, OutOfFuel)
     | S k =>
-        match sr_find_line bs f st fo1 with
+        match sr_find_line bs f st [] fo1 with
         | (st, Found (fo2, ln)) =>
             let fo_a_max := N.max fo_a_max fo2 in
             match sr_parse bs f st ln with
@@ -661,7 +888,7 @@ Section Dated.
     match fuel with
     | O => (st, OutOfFuel)
     | S k =>
-        match sr_find_line bs f st fo1 with
+        match sr_find_line bs f st acc fo1 with
         | (st, Found (fo2, ln)) =>
             match sr_parse bs f st ln with
             | (st, None) => c_loop_b k bs f st fo2 (acc ++ [ln])
@@ -712,7 +939,7 @@ Section Dated.
     match fuel with
     | O => (st, IBfail OutOfFuel)
     | S k =>
-        match sr_find_line_in_block bs f st fo1 with
+        match sr_find_line_in_block bs f st [] fo1 with
         | (st, (Found (fo2, ln), _)) =>
             match sr_parse bs f st ln with
             | (st, Some dt) =>
@@ -739,7 +966,7 @@ Section Dated.
     match fuel with
     | O => (st, OutOfFuel)
     | S k =>
-        match sr_find_line_in_block bs f st fo1 with
+        match sr_find_line_in_block bs f st acc fo1 with
         | (st, (Found (fo2, ln), _)) =>
             match sr_parse bs f st ln with
             | (st, None) => ib_loop_b k bs f st fo2 (acc ++ [ln])
@@ -809,16 +1036,6 @@ Section Dated.
 
   (* ------------------------------------------------ drops *)
 
-  (* distinct live Sysline objects: values of `syslines` and of the LRU cache *)
-  Fixpoint dedup_ssl (l : list ssl) (seen : list N) : list ssl :=
-    match l with
-    | [] => []
-    | s :: r => if existsb (N.eqb (ss_id s)) seen then dedup_ssl r seen
-                else s :: dedup_ssl r (ss_id s :: seen)
-    end.
-  Definition sres_ssl (e : N * sres) : list ssl := match snd e with SF _ s => [s] | SD => [] end.
-  Definition live_ssl (st : sr_state) : list ssl :=
-    dedup_ssl (map snd (s_syslines st) ++ flat_map sres_ssl (s_lru st)) [].
   Definition line_refs (st : sr_state) (id : N) : N :=
     lenN (filter (fun s => existsb (fun l => sl_id l =? id) (ss_lines s)) (live_ssl st)).
 
@@ -835,7 +1052,7 @@ Section Dated.
         else
           let st := sr_cnt d_drop_ok st in
           (* LineReader::drop_lines *)
-          fold_left (fun st l => sr_set_lr (lr_drop_line bs (s_lr st) l (line_refs st (sl_id l))) st)
+          fold_left (fun st l => sr_set_lr (lr_drop_line bs (lr_set_ext (sr_held st []) (s_lr st)) l (line_refs st (sl_id l))) st)
                     (ss_lines s) st
     end.
 
@@ -906,7 +1123,8 @@ Section Dated.
   | OSE (on : bool)         (* SyslineReader::LRU_cache_enable / _disable *)
   | ODD (bo : N)            (* SyslineReader::drop_data *)
   | ODS (fo : N)            (* SyslineReader::drop_sysline *)
-  | ORD (plan : list bool). (* the stage driver on the CURRENT SyslineReader *)
+  | ORD (plan : list bool)  (* the stage driver on the CURRENT SyslineReader *)
+  | OXD.                    (* BlockReader::disable_drop_data of the SyslineReader (streamed year-less files) *)
 
   Inductive cres : Type :=
   | RL (r : res (N * sline)) (p : lpath)
@@ -917,7 +1135,8 @@ Section Dated.
   | RU.                     (* unit: enable / disable / drops *)
 
   Definition cstate := (lr_state * sr_state)%type.
-  Definition cinit : cstate := (lr_init, sr_init).
+  Definition cinit_k (stream : bool) : cstate := (lr_init_k stream, sr_init_k stream).
+  Definition cinit : cstate := cinit_k false.
 
   Definition c_step (bs : N) (f : file) (st : cstate) (o : cop) : cstate * cres :=
     let '(l, s) := st in
@@ -931,6 +1150,7 @@ Section Dated.
     | ODD bo => ((l, c_drop_data bs s bo), RU)
     | ODS fo => ((l, c_drop_sysline bs s fo), RU)
     | ORD plan => let '(s, r) := c_stream bs f plan s in ((l, s), RR r)
+    | OXD => ((l, sr_set_lr (lr_set_blk (b_disable_drop (l_blk (s_lr s))) (s_lr s)) s), RU)
     end.
 
   Definition cres_panicked (r : cres) : bool :=
